@@ -25,6 +25,7 @@ def run(ctx, prog, facts, tier):
     rules_c02.check_move_footprint(ctx, prog, I, mvs)
     rules_c02.check_capture_footprint(ctx, prog, I)
     rules_c02.check_take_action_composition(ctx, prog, I, mvs[::4])
+    rules_c02.check_step_semantics(ctx, prog, rules_c02.step_semantics_moves(tier == 'quick'), rule='C10.5')
     # base case of the invariant for positions that come from text
     rules_text.check_parsed_board_consistent(ctx, prog, 'C10', full=(tier != 'quick'))
     ctx.assumptions += [
